@@ -7,9 +7,16 @@
 (c) the listed functions still contain the full-point equality their specification asks for.
 """
 from sxlib import *
-from core import Obligation
+from core import Obligation, props_of_function
 
 X_ONLY_CALLERS = {"secp256k1_gej_eq_x_var": {"secp256k1_ecdsa_sig_verify"}}
+# primitives whose precondition is only a VERIFY_CHECK (compiled out of the library): who may call them is frozen from the reviewed
+# tree, where every caller establishes the precondition — a new caller has to be reviewed, not assumed
+PRECOND_CALLERS = {
+    "secp256k1_gej_add_ge": ({"secp256k1_ec_pubkey_combine", "secp256k1_ecmult_const", "secp256k1_ecmult_gen", "secp256k1_generator_generate_internal"},
+                             "the constant-time mixed addition requires a finite second operand (checked by VERIFY_CHECK only); callers that may see "
+                             "the point at infinity use secp256k1_gej_add_ge_var"),
+}
 FE_CMP = ("secp256k1_fe_equal", "secp256k1_fe_equal_var", "secp256k1_fe_cmp_var")
 # function -> (acceptable full-equality callees or 'xy' for the paired-coordinate idiom, properties, what)
 FULL_EQ = {
@@ -47,6 +54,16 @@ def obligations(prog):
             obs.append(Obligation("R-BIND", "R-BIND:x-only:%s:%s#%d" % (prim, f.name, n), c[2], f.name,
                                   "the x-only comparison %s may only be used by %s" % (prim, ", ".join(sorted(allowed))), ok,
                                   "called from %s" % f.name))
+    for prim, (allowed, why) in PRECOND_CALLERS.items():
+        if prim not in prog.functions:
+            raise AnalysisBroken("R-BIND: primitive %s vanished" % prim)
+        n = 0
+        for (f, el, c) in callers.get(prim, []):
+            if f.file.endswith("tests_impl.h") or f.name.startswith("test_") or f.name.startswith("run_") or f.file.startswith(("src/bench", "src/tests")):
+                continue
+            n += 1
+            obs.append(Obligation("R-BIND", "R-BIND:precond:%s:%s#%d" % (prim, f.name, n), c[2], f.name,
+                                  "%s: %s" % (prim, why), f.name in allowed, "called from %s" % f.name, props=props_of_function(f) | {"C05", "C07"}))
     # (b)
     for f in prog.functions.values():
         if not f.blocks or not f.file.startswith("src/") or f.file.startswith(("src/field", "src/group", "src/ecmult", "src/scalar")):
